@@ -284,12 +284,30 @@ def run_set(case):
   if k == 'tdevice':
     n = case['n']
     try:
-      dk().TDevice('t', n, to_py(case['b']), num(case['sustainment']), num(case['efficiency']), 20, 20, num(case['t_range']),
-                   [10]*case['lent'], c=val_py(case['c'], n), cbounds=spec_py(case['cb']))
-      return [0]
+      dev = build_tdevice(case)
     except Exception as e:
       return [code_of(e)]
+    return [0] + dump_tdevice(dev, n)
   raise ValueError(k)
+
+
+def build_tdevice(case):
+  n = case['n']
+  return dk().TDevice('t', n, to_py(case['b']), num(case['sustainment']), num(case['efficiency']), num(case['t_init']), num(case['t_optimal']),
+                      num(case['t_range']), [float(Fraction(x)) for x in case['t_external']], c=val_py(case['c'], n), cbounds=spec_py(case['cb']))   # floats: an int-typed negative t_external dies in numpy's int ** negative int
+
+
+def dump_tdevice(dev, n):
+  """mirror of the `tdevice` branch of DK.Driver.Validate.validateOp: everything a TDevice reports."""
+  lo, hi = dev.lbounds, dev.hbounds
+  out = []
+  for i in range(n):
+    out += [fnum(lo[i]), fnum(hi[i])]
+  out += enc_cbounds(dev.cbounds)
+  out += [float(dev.sustainment), float(dev.efficiency), float(dev.t_init), float(dev.t_optimal), float(dev.t_range)]
+  te = list(dev.t_external)
+  out += [float(te[i]) if i < len(te) else 0.0 for i in range(n)]
+  return out + enc_pval(dev.c, n)
 
 
 # ---------------------------------------------------------------- enumeration
@@ -383,9 +401,25 @@ def enum_cbounds(n):
   return specs
 
 
+EPS = Fraction(1, 2**30)   # a neighbour below 1e-6 (exact in binary floating point next to every threshold used here)
+
+
 def thr(t, both=True):
   t = Fraction(t)
-  return [C.fs(t - D), C.fs(t), C.fs(t + D)]
+  return [C.fs(t - D), C.fs(t - EPS), C.fs(t), C.fs(t + EPS), C.fs(t + D)]
+
+
+def fine_bounds(n):
+  """low/high pairs that differ by less than 1e-6: `low = high + 2^-30` must be rejected, `low = high - 2^-30` accepted."""
+  out = []
+  for x in (Fraction(0), Fraction(1), Fraction(-1)):
+    for d in (EPS, -EPS, Fraction(0)):
+      lo, hi = C.fs(x + d), C.fs(x)
+      out += [T(lo, hi), L(L(*[lo]*n), L(*[hi]*n)), L(*[L(lo, hi)]*n), L(L(*[lo]*n), hi), L(lo, L(*[hi]*n))]
+      for i in range(n):
+        v = [hi]*n; v[i] = lo
+        out += [L(L(*v), L(*[hi]*n)), L(*[L(v[j], hi) for j in range(n)])]
+  return out
 
 
 def enum_params(ns):
@@ -477,6 +511,15 @@ def enum_params(ns):
       if rows >= 1:                                     # (an empty list is a 1-D array, not a table)
         ctor('GDevice', n, [('cost_coeffs', {'nd': 2, 'rows': rows})])       # a per-slot table needs one row per slot
         ctor('GDevice', n, [('cost_coeffs', {'nd': 1, 'rows': n})], [('cost_coeffs', {'nd': 2, 'rows': rows})])
+    # a bounds assignment that is rejected must leave the device as it was — also when validate_bounds mis-reads it (n = 2)
+    if n == 2:
+      for cls in CLASSES:
+        mis = L(L('-1', '-1', '-1'), L('0', '0', '0')) if cls in GEN_CLASSES else L(L('0', '0', '0'), L('1', '1', '1'))
+        ctor(cls, n, [], [('bounds', {'b': mis})])
+        ctor(cls, n, [], [('bounds', {'b': L(mis['l'][0])})])
+    for cls in CLASSES:
+      ctor(cls, n, [], [('bounds', {'b': T('1', '0')})])
+      ctor(cls, n, [], [('bounds', {'b': L('0', '1', '2')}), ('cbounds', {'cb': {'p': ['1', '0']}})], cb={'p': ['1/4', '1/2']} if cls not in GEN_CLASSES else {'p': ['-1/2', '-1/4']})
     # keys a class has no property for are plain attributes
     for cls in CLASSES:
       ctor(cls, n, [('c1', '-5')] if cls != 'SDevice' else [('p_l', '5')])
@@ -529,16 +572,22 @@ def enum_sets(ns):
           cs.append({'k': 'set', 'kind': 'tworatio', 'n': n, 'nflows': nf, 'lb': ['0']*n, 'hb': ['1']*n, 'rlen': rlen, 'ctok': ctok})
       cs.append({'k': 'set', 'kind': 'tworatio', 'n': n, 'nflows': nf, 'lb': ['-1']*n, 'hb': ['1']*n, 'rlen': 2, 'ctok': True})
     def td(**kw):
-      c = {'k': 'set', 'kind': 'tdevice', 'n': n, 'b': T('0', '1'), 'cb': None, 'sustainment': '1/2', 'efficiency': '1', 't_range': '2',
-           'lent': n, 'c': '1'}
+      c = {'k': 'set', 'kind': 'tdevice', 'n': n, 'b': T('0', '1'), 'cb': None, 'sustainment': '1/2', 'efficiency': '3/4', 't_range': '2',
+           't_init': '18', 't_optimal': '21', 't_external': [str(10 + i) for i in range(n)], 'c': '3/2'}
       c.update(kw); cs.append(c)
     for x in thr(0) + thr(1): td(sustainment=x)
     for x in thr(0): td(efficiency=x); td(t_range=x); td(c=x)
     for i in range(n):
       for x in thr(0):
         v = ['1']*n; v[i] = x; td(c=v)
-    for ln in (0, n - 1, n + 1): td(lent=max(ln, 0)); td(c=['1']*max(ln, 0)) if ln != n else None
+    for ln in (0, n - 1, n + 1):
+      if ln >= 0:
+        td(t_external=[str(5 + i) for i in range(ln)]); td(c=['1']*ln)
     td(b=T('1', '0')); td(b=L('0', '1', '2')); td(cb={'p': ['1', '0']}); td(sustainment='2', efficiency='0')
+    # every stored setting is observable: distinct values, negative efficiency / temperatures, vector c, cumulative bounds
+    td(efficiency='-2'); td(efficiency='-1/2', sustainment='1', t_init='-3', t_optimal='-5/2', t_range='0')
+    td(b=L(L(*['-1']*n), L(*['1/2']*n)), cb={'p': ['-1/2', '1/4']}, c=[C.fs(Fraction(i + 1, 2)) for i in range(n)], t_external=[str(-i) for i in range(n)])
+    td(cb={'i': [['0', '1/2', '0', str(n)]]}, sustainment='0', t_range='7/2')
   return [c for c in cs if c is not None]
 
 
@@ -797,10 +846,10 @@ class C11(Prop):
   lean_module = 'DK.Props.C11'
   theorems = [
     'DK.C11.validate_sound', 'DK.C11.validate_sound_partial', 'DK.C11.validate_sound_counterexample', 'DK.C11.validate_complete',
-    'DK.C11.denotes_unique', 'DK.C11.gen_bounds_iff', 'DK.C11.gen_bounds_rejects_documented_form', 'DK.Validate.npShape_table_iff',
+    'DK.C11.denotes_unique', 'DK.C11.gen_bounds_iff', 'DK.Validate.npShape_table_iff',
     'DK.Validate.tableRows_iff',
     'DK.C11.cbRangeOk_iff', 'DK.C11.sliceSum_inRange', 'DK.C11.cbound_accept_iff', 'DK.C11.cbItem_accept_iff', 'DK.C11.cbound_attainable', 'DK.C11.setCbounds_ok_iff',
-    'DK.C11.setCbounds_attainable', 'DK.C11.setCbounds_reject_clears', 'DK.C11.setCbounds_items', 'DK.C11.setCboundsNone_ok',
+    'DK.C11.setCbounds_attainable', 'DK.C11.setCbounds_items', 'DK.C11.setCboundsNone_ok',
     'DK.C11.sC1Ok_iff', 'DK.C11.sC2Ok_iff', 'DK.C11.sC3Ok_iff', 'DK.C11.sCapacityOk_iff', 'DK.C11.sUnitOk_iff', 'DK.C11.sRateOk_iff',
     'DK.C11.sClipOk_iff', 'DK.C11.cAOk_iff', 'DK.C11.tSustainmentOk_iff', 'DK.C11.tEfficiencyOk_iff', 'DK.C11.tRangeOk_iff',
     'DK.C11.iParamOk_iff', 'DK.C11.iBOk_iff', 'DK.C11.hlParamOk_iff', 'DK.C11.pHOk_iff', 'DK.C11.pLOk_iff', 'DK.C11.allLe_pointwise',
@@ -808,7 +857,8 @@ class C11(Prop):
     'DK.C11.setField_step', 'DK.C11.step_frame', 'DK.C11.step_pinv', 'DK.C11.step_reported', 'DK.C11.setAll_reported', 'DK.C11.params_invariant', 'DK.C11.construct_params_invariant', 'DK.C11.history_params_invariant',
     'DK.C11.hl_pointwise', 'DK.C11.sdevice_c1_zero_c2_pos_reachable', 'DK.C11.hl_order_dependent',
     'DK.C11.cdevice2_scalar_invariant', 'DK.C11.cdevice2Ranges_ok', 'DK.C11.gdevice_coeffs_accept_iff',
-    'DK.C11.gen_hb_nonpos', 'DK.C11.gen_rejected_bounds_retained', 'DK.C11.reported_eq_supplied',
+    'DK.C11.gen_hb_nonpos', 'DK.C11.rejected_assignment_keeps_state', 'DK.C11.rejected_keeps_state_of_ne_bounds', 'DK.C11.rejected_keeps_state_of_ne_two',
+    'DK.C11.misread_only_at_two', 'DK.C11.rejected_bounds_misread_retained', 'DK.C11.tdevice_reported_eq_supplied', 'DK.C11.reported_eq_supplied',
   ]
   # the T1 bridge lemmas live in DK/Lemmas/ValidateBridge.lean (imported by DK.Props.C11), so they are audited with the
   # theorems of `lean_module` rather than through `bridge` (which newer versions of vk/check.py look up in DK.Lemmas.Bridge).
@@ -854,8 +904,8 @@ class C11(Prop):
       enumerated['bounds n=%d' % n] = len(vs)
       batches('bounds', n, 'raw', vs)
       batches('bounds', n, 'device', vs if (tier == 'thorough' or n <= 2) else vs[::3])
-      ks = kinds_bounds(n)
-      enumerated['container kinds n=%d' % n] = len(ks)
+      ks = kinds_bounds(n) + fine_bounds(n)
+      enumerated['container kinds + sub-1e-6 low/high pairs n=%d' % n] = len(ks)
       for level in ('raw', 'device', 'gen'):
         batches('bounds', n, level, ks)
       batches('bounds', n, 'gen', [v for v in vs[::7]])
@@ -870,6 +920,7 @@ class C11(Prop):
         cs.append({'k': 'probe', 'what': 'string', 'n': n, 'v': st})
       for deep in [L(L(*[L('0', '1')]*n), L(*[L('2', '3')]*n)), L(L(*[L('0', '1')]*n)), L(L(*[L('0', '1', '2')]*n), L(*[L('2', '3', '4')]*n))]:
         cs.append({'k': 'probe', 'what': 'deep', 'n': n, 'v': deep})
+      cs.append({'k': 'probe', 'what': 'float-index', 'n': n, 'v': None})
     small = [n for n in ns if n <= 3]
     pc = enum_params(small); enumerated['parameter thresholds'] = len(pc); cs += pc
     cf = enum_class_forms(small); enumerated['class x form x cbounds'] = len(cf); cs += cf
@@ -1072,6 +1123,18 @@ class C11(Prop):
   def oracle_probe(self, case, fail):
     """inputs outside the modelled fragment (strings; nesting depth 3): every one of them is ill-formed."""
     n, what = case['n'], case['what']
+    if what == 'float-index':
+      # float slot indices pass the range test and die at the slice: a type confusion, any exception rejects it; the state must survive
+      dev = dk().Device('d', n, (0, 1)); dev.cbounds = (0.25*n, 0.5*n); prev = list(dev.cbounds)
+      self._inputs += 1
+      try:
+        dev.cbounds = [(0, 1, 0.0, float(n))]
+        self.note('cbounds with float slot indices accepted', 'Device(%d).cbounds = [(0, 1, 0.0, %r)] -> %r' % (n, float(n), dev.cbounds))
+      except Exception as e:
+        if dev.cbounds != prev:
+          fail({'kind': 'rejected-assignment-retained', 'cls': 'Device', 'field': 'cbounds'},
+               'Device(length=%d).cbounds = [(0, 1, 0.0, %r)]: raised %s, yet cbounds is now %r, was %r' % (n, float(n), type(e).__name__, dev.cbounds, prev))
+      return
     py = case['v'] if what == 'string' else to_py(case['v'])
     for where, f in (('Device', lambda: dk().Device('d', n, py)), ('validate_bounds', lambda: stub(n).validate_bounds(py)),
                      ('DeviceSet.sbounds', lambda: dk().DeviceSet('set1', mk_devices([n]), py))):
@@ -1082,8 +1145,9 @@ class C11(Prop):
       except ValueError:
         continue
       except Exception as e:
-        fail({'where': where, 'kind': 'wrong-exception-type', 'exc': type(e).__name__, 'cause': what},
-             '%s: raised %s(%s); it is ill-formed and ValueError is what the property promises' % (show, type(e).__name__, str(e)[:80]))
+        if what != 'string':                          # a string where a sequence of numbers belongs is a type confusion: any exception rejects it
+          fail({'where': where, 'kind': 'wrong-exception-type', 'exc': type(e).__name__, 'cause': what},
+               '%s: raised %s(%s); it is ill-formed and ValueError is what the property promises' % (show, type(e).__name__, str(e)[:80]))
         continue
       got = r if where == 'validate_bounds' else (r.sbounds if where == 'DeviceSet.sbounds' else r.bounds)
       fail({'where': where, 'kind': 'ill-formed-accepted', 'sub': 'deep-nesting' if what == 'deep' else 'string'},
@@ -1097,6 +1161,10 @@ class C11(Prop):
     if cls:
       base['cls'] = cls
     self._inputs += 1
+    confused = has_none(v)        # a None where a number belongs is a type confusion, not one of the enumerated ill-formed settings
+    if ref[0] == 'lenient' and confused:
+      self.stat('entirely-None table (neither documented nor declared ill-formed): no demand')
+      return
     if res[0] == 'ok':
       w, rows = res[1], res[2]
       if ref[0] == 'ill':
@@ -1118,10 +1186,10 @@ class C11(Prop):
         cause = 'ragged-raw-argument' if where == 'PVDevice' and 'inhomogeneous' in str(e) else 'other'
         fail(dict(base, kind='valid-rejected', exc=name, cause=cause), '%s: raised %s(%s) but this is a documented form denoting %s' % (show, name, str(e)[:80], ref[1]))
         self.stat('valid-rejected')
+      elif confused:
+        self.stat('type-confused argument rejected with %s' % name)      # any exception type is a rejection there
       elif not isinstance(e, ValueError):
-        cause = ref[1] if ref[0] == 'ill' else 'all-none'
-        if name == 'TypeError' and has_none(v):
-          cause = 'none-entry' if ref[0] == 'ill' else 'all-none'
+        cause = ref[1]
         fail(dict(base, kind='wrong-exception-type', exc=name, cause=cause),
              '%s: raised %s(%s); the specification is ill-formed (%s) and ValueError is what the property promises' % (show, name, str(e)[:80], cause))
         self.stat('wrong-exception-type/%s/%s' % (name, cause))
@@ -1182,10 +1250,13 @@ class C11(Prop):
       else:
         if ref[0] == 'ok':
           fail({'where': 'cbounds', 'kind': 'valid-rejected', 'exc': type(err).__name__}, '%s: raised %s(%s) but it is well-formed and attainable' % (show, type(err).__name__, str(err)[:80]))
-        elif not isinstance(err, ValueError):
+        elif not isinstance(err, ValueError) and ref[1] not in ('arity', 'not-a-sequence'):
+          # (a mis-shaped argument is a type confusion: any exception is a rejection; low >= high, a range outside the
+          #  horizon and an unattainable interval are the enumerated ill-formed settings: ValueError)
           fail({'where': 'cbounds', 'kind': 'wrong-exception-type', 'exc': type(err).__name__, 'cause': ref[1]}, '%s: raised %s(%s), ValueError expected (%s)' % (show, type(err).__name__, str(err)[:80], ref[1]))
-        if prev is not None and dev.cbounds != prev:
-          self.note('a rejected cbounds assignment replaces the previous cumulative bounds', show + ' -> cbounds is now %r, was %r' % (dev.cbounds, prev))
+        if dev.cbounds != prev:
+          fail({'kind': 'rejected-assignment-retained', 'cls': 'Device', 'field': 'cbounds'},
+               '%s: raised %s, yet the device now reports cbounds=%r; before the rejected assignment it reported %r' % (show, type(err).__name__, dev.cbounds, prev))
 
   def oracle_ctor(self, case, fail):
     cls, n = case['cls'], case['n']
@@ -1213,19 +1284,17 @@ class C11(Prop):
     for f, v in case['kw']:
       if param_in_range(cls, n, f, v) is False:
         bad.append('%s out of range' % f)
+    if refb[0] == 'lenient' and has_none(case['b']):
+      return                                          # an entirely-None table: neither documented nor declared ill-formed
     try:
       dev = build(case)
       err = None
     except Exception as e:
       err = e
     if err is not None:
-      if bad and not isinstance(err, ValueError):
-        if refb[0] == 'ill':
-          cause = 'none-entry' if (isinstance(err, TypeError) and has_none(case['b'])) else refb[1]
-        elif refb[0] == 'lenient' and has_none(case['b']):
-          cause = 'all-none'
-        else:
-          cause = bad[0].replace(' ', '-')
+      confused = has_none(case['b']) or (refc is not None and refc[0] == 'ill' and refc[1] in ('arity', 'not-a-sequence'))
+      if bad and not isinstance(err, ValueError) and not confused:
+        cause = refb[1] if refb[0] == 'ill' else bad[0].replace(' ', '-')
         fail({'where': 'constructor', 'cls': cls, 'kind': 'wrong-exception-type', 'exc': type(err).__name__, 'cause': cause},
              '%s: raised %s(%s); ValueError expected (%s)' % (show, type(err).__name__, str(err)[:80], '; '.join(bad)))
       if not bad and refb[0] == 'table' and len(case['kw']) <= 1 and not case.get('sets'):
@@ -1283,13 +1352,18 @@ class C11(Prop):
       if e is not None and rng_ok is False and not isinstance(e, ValueError):
         fail({'where': 'setter', 'cls': cls, 'kind': 'wrong-exception-type', 'exc': type(e).__name__, 'cause': f + ' out of range'}, step + ': raised %s' % type(e).__name__)
       if e is not None and self.snapshot(dev, cls) != before:
-        self.note('a rejected assignment is retained (%s.%s stores before it raises)' % (cls if f == 'bounds' and cls in GEN_CLASSES else 'Device', f), step + ': raised %s, yet the device now reports %s' % (type(e).__name__, self.snapshot(dev, cls)))
+        key = {'kind': 'rejected-assignment-retained', 'cls': cls, 'field': f}
+        if f == 'bounds':
+          r = run_bounds('raw', n, to_py(v['b']))
+          if r[0] == 'ok' and r[1] != 2:
+            key['sub'] = 'misread-table'              # validate_bounds itself mis-read the argument (n = 2); HyperCube raised after the store
+        fail(key, step + ': raised %s, yet the device now reports %s; before the rejected assignment it reported %s' % (type(e).__name__, self.snapshot(dev, cls), before))
     self.check_ranges(dev, cls, n, show + ' + ' + repr(case.get('sets', [])), fail)
 
   def snapshot(self, dev, cls):
     s = {'bounds': np().array(dev.bounds).tolist(), 'cbounds': None if dev.cbounds is None else [tuple(float(y) for y in x) for x in dev.cbounds]}
     for f in OWNS[cls]:
-      s[f] = np().array(getattr(dev, f), dtype=object).tolist() if f not in ('cost_coeffs',) else None
+      s[f] = np().array(getattr(dev, f), dtype=object).tolist()
     return json.dumps(s, sort_keys=True, default=str)
 
   def single_valid(self, cls, n, f, v):
@@ -1348,8 +1422,10 @@ class C11(Prop):
         return expect(True, 'there is no device', show, 'no-devices')
       if len(set(lens)) > 1:
         return expect(True, 'horizon lengths differ', show, 'mismatched-lengths')
-      if case['idok'] is not True:
-        return expect(True, 'the id does not match the documented pattern', show, 'bad-id' if case['idok'] is False else 'id-not-a-string')
+      if case['idok'] is None:
+        return                                        # an id is not a setting; a non-string id is a type confusion (T2 still compares the outcome)
+      if case['idok'] is False:
+        return expect(True, 'the id does not match the documented pattern', show, 'bad-id')
       if case['sb'] is None:
         return expect(False, '', show, '')
       n = lens[0]
@@ -1384,19 +1460,72 @@ class C11(Prop):
       return expect(False, '', show, '')
     if kind == 'tdevice':
       n = case['n']
-      show = 'TDevice(length=%d, bounds=%r, sustainment=%s, efficiency=%s, t_range=%s, len(t_external)=%d, c=%r, cbounds=%r)' % (
-        n, to_py(case['b']), case['sustainment'], case['efficiency'], case['t_range'], case['lent'], case['c'], spec_py(case['cb']))
+      show = 'TDevice(length=%d, bounds=%r, sustainment=%s, efficiency=%s, t_init=%s, t_optimal=%s, t_range=%s, t_external=%s, c=%r, cbounds=%r)' % (
+        n, to_py(case['b']), case['sustainment'], case['efficiency'], case['t_init'], case['t_optimal'], case['t_range'], case['t_external'], case['c'], spec_py(case['cb']))
       refb = ref_bounds(case['b'], n)
       c = fr(case['c'])
       why = []
+      refc = None
       if refb[0] == 'ill': why.append('bounds')
-      elif ref_cbounds(case['cb'], n, [Fraction(r[0]) for r in refb[1]], [Fraction(r[1]) for r in refb[1]])[0] == 'ill': why.append('cbounds')
+      else:
+        refc = ref_cbounds(case['cb'], n, [Fraction(r[0]) for r in refb[1]], [Fraction(r[1]) for r in refb[1]])
+        if refc[0] == 'ill': why.append('cbounds')
       if not 0 <= Fraction(case['sustainment']) <= 1: why.append('sustainment outside [0,1]')
       if Fraction(case['efficiency']) == 0: why.append('efficiency is 0')
       if Fraction(case['t_range']) < 0: why.append('t_range < 0')
-      if case['lent'] != n: why.append('t_external has the wrong length')
+      if len(case['t_external']) != n: why.append('t_external has the wrong length')
       if (isinstance(c, list) and (len(c) != n or any(x < 0 for x in c))) or (not isinstance(c, list) and c < 0): why.append('c')
-      return expect(bool(why), '; '.join(why), show, why[0] if why else '')
+      expect(bool(why), '; '.join(why), show, why[0] if why else '')
+      if why or code != 0:
+        return
+      # accepted: every setting is reported with the meaning the caller supplied (properties and to_dict)
+      dev = build_tdevice(case)
+      n_ = np()
+      def bad(what, got, want):
+        fail({'where': 'tdevice', 'cls': 'TDevice', 'kind': 'parameter-not-reported', 'param': what},
+             '%s: reports %s=%r, supplied %r' % (show, what, got, want))
+      want = {'sustainment': float(Fraction(case['sustainment'])), 'efficiency': float(Fraction(case['efficiency'])), 't_init': float(Fraction(case['t_init'])),
+              't_optimal': float(Fraction(case['t_optimal'])), 't_range': float(Fraction(case['t_range'])),
+              't_external': [float(Fraction(x)) for x in case['t_external']], 'c': [float(x) for x in c] if isinstance(c, list) else float(c)}
+      dd = dev.to_dict()
+      for k_, w_ in want.items():
+        for src, got in (('', getattr(dev, k_)), ('to_dict()', dd.get(k_, 'absent'))):
+          try:
+            ok = n_.array(got, dtype=float).shape == n_.array(w_, dtype=float).shape and bool(n_.all(n_.array(got, dtype=float) == n_.array(w_, dtype=float)))
+          except Exception:
+            ok = False
+          if not ok:
+            bad((src + ' ' + k_).strip(), got, w_)
+      if not same_rows(refb[1], list(zip(dev.lbounds, dev.hbounds))) or not same_rows(refb[1], [tuple(r) for r in n_.array(dd['bounds']).tolist()]):
+        bad('bounds', n_.array(dev.bounds).tolist(), refb[1])
+      wcb = refc[1]
+      for src, got in (('cbounds', dev.cbounds), ('to_dict() cbounds', dd.get('cbounds', 'absent'))):
+        if wcb is None:
+          ok = got is None
+        else:
+          ok = got is not None and got != 'absent' and len(got) == len(wcb) and all(all(float(a) == float(b_) for a, b_ in zip(g, w_)) for g, w_ in zip(got, wcb))
+        if not ok:
+          bad(src, got, spec_py(case['cb']))
+      return
+
+  def nontrivial(self, case):
+    """a case counts when it exercises both verdicts of a validator, or a non-default accepted setting:
+    bounds / cbounds batches that hold at least one specification the documented grammar accepts AND one it rejects;
+    constructor cases with a documented bounds form and at least one keyword, later assignment or cumulative bound;
+    set-level cases with at least one device / flow; setter-history twins.  Shape probes and oracle-only probes do not count."""
+    k = case['k']
+    if k == 'bounds':
+      verdicts = {ref_bounds(v, case['n'])[0] != 'ill' for v in case['vs']}
+      return verdicts == {True, False}
+    if k == 'cbounds':
+      lb, hb = [Fraction(x) for x in case['lb']], [Fraction(x) for x in case['hb']]
+      verdicts = {ref_cbounds(sp, case['n'], lb, hb)[0] == 'ok' for sp in case['specs']}
+      return verdicts == {True, False}
+    if k == 'ctor':
+      return ref_bounds(case['b'], case['n'])[0] != 'ill' and bool(case['kw'] or case.get('sets') or case['cb'] is not None)
+    if k == 'set':
+      return bool(case.get('lens') or case.get('nflows') or case['kind'] == 'tdevice')
+    return k == 'twin'
 
   def extra_evidence(self):
     return {
